@@ -39,7 +39,7 @@ HEAVY_ON_LONG = {1, 2, 3, 4, 7}
 QUICK_PREFIXES = {"del_mid", "trunc0", "split1", "prepend2", "merge", "split1_append"}
 
 
-def mq(segs, ops, prepend=0, prime=False, timeout=280, extra=(), tag="", sample=None, replay=False, extra_unwind=0):
+def mq(segs, ops, prepend=0, prime=False, timeout=280, extra=(), tag="", sample=None, replay=False, extra_unwind=0, stretch=False):
     name = "mut_seg%s_pre%d%s_%s%s" % ("-".join(map(str, segs)), prepend, "_primed" if prime else "",
                                        "_".join(KINDS[o] for o in ops), tag)
     defs = ["SEGS=" + ",".join(map(str, segs)), "OPS=" + ",".join(map(str, ops)), "MGR_PREPEND=%d" % prepend,
@@ -48,7 +48,7 @@ def mq(segs, ops, prepend=0, prime=False, timeout=280, extra=(), tag="", sample=
         defs.append("PRIME")
     uw = len(segs) + 2 * len(ops) + 2 + extra_unwind
     return Query(name=name, harness="C03_block.c", defines=defs, unwind=uw, unwindset=UW, shims=SHIMS, timeout=timeout,
-                 replay_witness=replay, sample=sample)
+                 replay_witness=replay, sample=sample, stretch=stretch)
 
 
 def build(tier):
@@ -91,8 +91,10 @@ def build(tier):
                         continue
                     if pname in LONG_CHAIN and op in HEAVY_ON_LONG:
                         continue        # no verdict within 40 min (see CLAIM.note)
+                    # a 3-segment start + a prefix that adds segments: chains of 5+ segments, decided only sometimes within the
+                    # cap (timeouts, or CBMC's 4096-object limit): reported, not fatal
                     qs.append(mq(sg, [op], pre, extra=[pdef] + (["WITNESS_ANY"] if pname == "trunc0" else []),
-                                 tag="_after_" + pname, timeout=280 if quick else 900, extra_unwind=4,
+                                 tag="_after_" + pname, timeout=280 if quick else 900, extra_unwind=4, stretch=(not quick and len(sg) >= 3),
                                  sample={"segments": sg, "manager_prepend": pre, "prefix (concrete arguments)": pname,
                                          "then": KINDS[op] + " with symbolic arguments + 2 symbolic read probes"}
                                  if (pname, op) in (("split1_append", 0), ("del_mid", 5)) else None))
@@ -112,7 +114,7 @@ def build(tier):
                     tag = "_small" + "-".join(map(str, sm))
                 qs.append(Query(name="acc_%s_seg%s%s" % (ACC[acc], "-".join(map(str, sg)), tag), harness="C03_access.c",
                                 defines=defs, unwind=10, unwindset=AUW, shims=SHIMS, timeout=280 if quick else 900,
-                                replay_witness=(sg == segsA[0]),
+                                replay_witness=(sg == segsA[0]), witness=(sg != [0, 3]),   # an empty head segment makes some witnesses' shape unreachable
                                 sample={"accessor": ACC[acc], "segments": sg, "arguments": "symbolic ints in [-8,8]",
                                         "offset_cache": "left anywhere by a symbolic priming read"}
                                 if sg == segsA[0] and acc in (2, 5) else None))
